@@ -308,6 +308,8 @@ for d in ("DecompressDeflate", "DecompressGzip", "DecompressZlib"):
 TRUST = "returns Result / Option on malformed input (read in the vendored source); no documented panicking precondition"
 ext("*|ext|Url::parse", TRUST)
 ext("*|ext|Url::path", "accessor")
+ext("*|ext|serde_json::from_str", "(feature optel only) JSON text from the FDT's Optel-Propagator attribute: malformed input is returned as Err (`.ok()?`), "
+    "serde_json's recursion limit (128) bounds the stack, the target type HashMap<String, String> is bounded by the attribute's length")
 ext("*|ext|de::from_reader", "quick-xml/serde deserialisation of received FDT bytes: errors are returned as Err; the element nesting is fixed by the FdtInstance/File structs")
 ext("*|ext|Engine::decode", TRUST)
 ext("*|ext|Engine::encode", "encoding cannot fail")
